@@ -1,5 +1,5 @@
 CONSTANTS
-  Ticks = {1, 2, 3, 5, 86390}
+  Ticks = {1, 2, 3, 5}
   Horizon = 100000000
   RawTTLs = {0, 1, 3, 7, 100000}
   AuxSet <- TAux
